@@ -110,6 +110,8 @@ def _plain_tensor(x):
     """zero-filled real tensor standing for a SymTensor in the shadow call"""
     if isinstance(x, SymTensor):
         return _real_zeros(tuple(x._sym.shape), dtype=torch_dtype(x._sym.dtype))
+    if isinstance(x, A.SymArray) or A.is_sym_scalar(x):
+        return A.dummy(x)          # symbolic NumPy operands (e.g. tables built under the np facade): zero-filled stand-ins
     if isinstance(x, (list, tuple)):
         return type(x)(_plain_tensor(e) for e in x)
     if isinstance(x, dict):
@@ -632,6 +634,26 @@ def _cholesky_ex(a, **kw):
 @handler('numpy', 'tolist', 'item', noshadow=True)
 def _leave(a, *args, **kw):
     return a
+
+
+@handler('__array__', noshadow=True)
+def _array(a, dtype=None, **kw):
+    """numpy ufunc with a tensor operand (`tensor * ndarray`): real torch hands numpy its buffer and re-wraps the result in
+    __array_wrap__; here numpy runs its object loop over the symbolic elements"""
+    if dtype is not None and np.dtype(dtype) != object:
+        raise EngineError('conversion of a symbolic tensor to a typed ndarray')
+    return A.plain(a) if isinstance(a, A.SymArray) else a
+
+
+@handler('__array_wrap__', raw=True, noshadow=True)
+def _array_wrap(t, array, *args, **kw):
+    if not isinstance(array, np.ndarray):
+        r0 = np.empty((), dtype=object)
+        r0[()] = array
+        array = r0
+    if array.dtype != object:
+        return SymTensor(A.sym_array(array, array.dtype))
+    return SymTensor(A.wrap(array))
 
 
 STUBS = {}
